@@ -222,6 +222,13 @@ func (s *state) addFact(f Fact) bool {
 			}
 		}
 	}
+	// errors.As(e, &target) true implies *target != nil
+	if f.Atom.Kind == "B" && f.Pol && f.Atom.A.Op == "icall" && f.Atom.A.CallName() == "errors.As" && len(f.Atom.A.Args) == 2 {
+		out := &Term{Op: "out", Name: "1", Args: []*Term{f.Atom.A}}
+		if !s.addFact(Fact{atomEQ(out, tNil), false}) {
+			return false
+		}
+	}
 	// errors.Is(e, X) true implies e != nil
 	if f.Atom.Kind == "B" && f.Pol && f.Atom.A.IsCall("errors.Is") && len(f.Atom.A.Args) == 2 {
 		return s.addFact(Fact{atomEQ(f.Atom.A.Args[0], tNil), false})
@@ -944,6 +951,14 @@ func foldBin(op string, a, b *Term) *Term {
 			return tInt(ai - bi)
 		case "*":
 			return tInt(ai * bi)
+		case "|":
+			return tInt(ai | bi)
+		case "&":
+			return tInt(ai & bi)
+		case "<<":
+			if bi >= 0 && bi < 62 {
+				return tInt(ai << uint(bi))
+			}
 		case "<":
 			return boolT(ai < bi)
 		case "<=":
@@ -1335,6 +1350,12 @@ func (x *explorer) opaque(st *state, fr *frame, name string, obj *types.Func, st
 	n := st.nOcc[name]
 	st.nOcc[name] = n + 1
 	t := &Term{Op: "icall", Name: fmt.Sprintf("%s#%d", name, n), Args: all, Callee: obj, Site: instr}
+	// a local passed by address to an effectful call may be overwritten by it
+	for i, a := range all {
+		if a.Op == "cell" && outParamCalls[name] {
+			st.mem[a.Key()] = &Term{Op: "out", Name: fmt.Sprintf("%d", i), Args: []*Term{t}}
+		}
+	}
 	x.event(st, fr, &Event{Kind: "call", Name: name, Callee: obj, StaticFn: static, Recv: recv, Args: args, Result: t, Instr: instr, Invoke: invoke})
 	// Set<X>(v) on a receiver makes Get<X>() return v afterwards
 	if recv != nil && strings.HasPrefix(name, ".Set") && len(name) > 4 {
@@ -1351,6 +1372,10 @@ func (x *explorer) opaque(st *state, fr *frame, name string, obj *types.Func, st
 	}
 	return t
 }
+
+// outParamCalls: effectful calls known to write through a pointer argument
+// (every other external call is assumed not to write to the caller's locals).
+var outParamCalls = map[string]bool{"errors.As": true, "json.Unmarshal": true, ".Decode": true, ".Unmarshal": true, ".UnmarshalJSON": true, ".Scan": true}
 
 // ------------------------------------------------------------- purity table
 
